@@ -6,6 +6,7 @@ import (
 	"context"
 	"errors"
 	"io"
+	"strings"
 
 	"go.uber.org/zap"
 
@@ -76,6 +77,49 @@ func VerifC12Framing() {
 		// the record's bytes; the single trailing delimiter may or may not be part of the argument
 		// (C07 decides that question)
 		verifrt.Assert("c12.record-bytes", verifrt.Or(got[i] == want[i], got[i] == want[i]+"\n"))
+	}
+}
+
+// VerifC12LongRecord: records longer than the reader's internal buffer (bufio: 4096 bytes) are
+// still one callback each. The long record's bytes are concrete except for a few symbolic ones;
+// the split of the stream into writes is a decision.
+func VerifC12LongRecord() {
+	L := verifrt.Param("L", 4100)
+	head := verifrt.Str("head", 2, 2, `[^\n]`)
+	long := head + strings.Repeat("x", L) + verifrt.Str("tail", 1, 1, `[^\n]`)
+	stream := "a\n" + long + "\n" + "\n" + "b\n"
+	want := []string{"a", long, "", "b"}
+	var chunks []string
+	switch verifrt.Choose("chunking", 3) {
+	case 0:
+		chunks = []string{stream}
+	case 1: // split inside the long record, at the buffer size
+		chunks = []string{stream[:4096], stream[4096:]}
+	case 2: // three pieces with boundaries around the long record's end
+		chunks = []string{stream[:2], stream[2 : len(long)+1], stream[len(long)+1:]}
+	}
+	path := verifrt.MkFifo("pipe")
+	n := NewNamedPipeIngester(zap.NewNop().Sugar(), health.NewHealth())
+	go func() {
+		w := verifrt.FifoOpenWriter(path)
+		for _, c := range chunks {
+			w.Write(c)
+		}
+		w.Close()
+	}()
+	var got []string
+	err := n.Ingest(context.Background(), path, '\n', func(_ context.Context, rec string) error {
+		got = append(got, rec)
+		return nil
+	})
+	verifrt.Reach("c12.long.returned")
+	verifrt.Assert("c12.long.eof-is-an-error", err != nil)
+	verifrt.Assert("c12.long.one-callback-per-record", len(got) == len(want))
+	if len(got) != len(want) {
+		return
+	}
+	for i := range got {
+		verifrt.Assert("c12.long.record-bytes", verifrt.Or(got[i] == want[i], got[i] == want[i]+"\n"))
 	}
 }
 
